@@ -511,3 +511,15 @@ BENIGN["C13"] = [
     (KL, "        rnm = 1. / np.sqrt((j + 1) * (j + 2))\n", "        rnm = ((j + 1.) * (j + 2.)) ** -0.5\n"),
     (KL, "    d = (1 - ri**2) / nr\n    # r2", "    d = (1 - ri * ri) / float(nr)\n    # r2"),
 ]
+
+# seeded variants of a kept refactoring (the iterator / comprehension spelling of the pool assembly, benign/C03-b1)
+SEEDED_ON = {
+    "C03": [
+        ("benign/C03-b1/patch.diff", SC, "wfs_pairs = [(wfs_i, wfs_j) for wfs_i in range(self.n_wfs) for wfs_j in range(wfs_i+1)]",
+         "wfs_pairs = [(wfs_i, wfs_j) for wfs_i in range(self.n_wfs) for wfs_j in range(self.n_wfs)]", "O"),
+        ("benign/C03-b1/patch.diff", SC, "wfs_pairs = [(wfs_i, wfs_j) for wfs_i in range(self.n_wfs) for wfs_j in range(wfs_i+1)]",
+         "wfs_pairs = [(wfs_j, wfs_i) for wfs_i in range(self.n_wfs) for wfs_j in range(wfs_i+1)]", "O4"),
+        ("benign/C03-b1/patch.diff", SC, "cov_xx, cov_yy, cov_xy = next(pair_results)",
+         "cov_xx, cov_yy, cov_xy = next(pair_results)\n                    if wfs_i == wfs_j:\n                        next(pair_results)", "O"),
+    ],
+}
